@@ -27,6 +27,9 @@ type c07Step struct {
 	Short   int        `json:"short,omitempty"` // encode: bytes missing from the buffer (0 = large enough)
 	Inv     *c13Case   `json:"inv,omitempty"`
 	InvOp   string     `json:"invop,omitempty"`
+	// Around: the invalid definition also reaches a pool type (index Around-1), at a field id below
+	// the invalid member: a failed registration then passes through a type other pool members nest
+	Around int `json:"around,omitempty"`
 	Fresh   bool       `json:"fresh,omitempty"` // also compare with the same call made first in a fresh process
 }
 
@@ -109,6 +112,9 @@ func genC07(t *rapid.T) c07Case {
 			}
 			st.Inv = &ic
 			st.InvOp = rapid.SampledFrom([]string{"size", "encode", "decode"}).Draw(t, "iop")
+			if rapid.Bool().Draw(t, "iaround") {
+				st.Around = 1 + rapid.IntRange(0, len(c.Pool)-1).Draw(t, "iaroundt")
+			}
 		}
 		st.Fresh = rapid.IntRange(0, 9).Draw(t, "fresh") == 0
 		c.Steps = append(c.Steps, st)
@@ -134,7 +140,23 @@ func execStep(pool []*core.StructSpec, st c07Step) (stepResult, bool, *Failure) 
 		if err != nil {
 			return res, true, nil
 		}
-		msg, f := expectRejected(st.InvOp, chain[len(chain)-1], false)
+		top := chain[len(chain)-1]
+		if st.Around > 0 && st.Around <= len(pool) {
+			pt := core.Bind(pool[st.Around-1]).Type
+			var built reflect.Type
+			func() {
+				defer func() { recover() }()
+				built = reflect.StructOf([]reflect.StructField{
+					{Name: "Near", Type: reflect.PointerTo(pt), Tag: `frugal:"1,optional,Near"`},
+					{Name: "NearL", Type: reflect.SliceOf(reflect.PointerTo(pt)), Tag: `frugal:"2,default,list<Near>"`},
+					{Name: "Bad", Type: reflect.PointerTo(top), Tag: `frugal:"3,optional,Bad"`},
+				})
+			}()
+			if built != nil {
+				top = built
+			}
+		}
+		msg, f := expectRejected(st.InvOp, top, false)
 		res.Err = msg
 		if st.InvOp == "size" {
 			res.Err = ""
